@@ -167,7 +167,13 @@ def xml_faults(rng, text, limit):
     elems = list(re.finditer(r"<(\w+)>([^<>]*)</\1>", text))
     for m in elems:
         for kind, val in (("empty_element", ""), ("non_numeric", "abc"), ("overflow", "1e999"), ("negative", "-1"), ("huge", "99999999999999999999"), ("comment_before_text", "<!-- c -->" + m.group(2)),
-                          ("whitespace_only", "  \n ")):
+                          ("whitespace_only", "  \n "),
+                          # well-formed structure where plain text is expected: a child element instead of / before / after the text,
+                          # a CDATA section, a processing instruction, an entity, an attribute-only child
+                          ("value_in_child_element", "<value>" + m.group(2) + "</value>"), ("child_element_before_text", "<unit>m</unit>" + m.group(2)),
+                          ("empty_child_before_text", "<id/>" + m.group(2)), ("child_element_after_text", m.group(2) + "<unit>m</unit>"),
+                          ("comment_only", "<!-- " + m.group(2) + " -->"), ("cdata", "<![CDATA[" + m.group(2) + "]]>"), ("processing_instruction", "<?pi x?>" + m.group(2)),
+                          ("entity", "&amp;" + m.group(2)), ("nested_same_tag", "<%s>%s</%s>" % (m.group(1), m.group(2), m.group(1)))):
             out.append(("xml_" + kind, text[:m.start(2)] + val + text[m.end(2):], m.group(1)))
         out.append(("xml_element_removed", text[:m.start()] + text[m.end():], m.group(1)))
         out.append(("xml_self_closing", text[:m.start()] + "<%s/>" % m.group(1) + text[m.end():], m.group(1)))
